@@ -6,6 +6,7 @@ import (
 
 	clpkeeper "github.com/Sifchain/sifnode/x/clp/keeper"
 	clptypes "github.com/Sifchain/sifnode/x/clp/types"
+	margintypes "github.com/Sifchain/sifnode/x/margin/types"
 	sdk "github.com/cosmos/cosmos-sdk/types"
 
 	"sifverif/chain"
@@ -50,7 +51,8 @@ func dustRT(v, own0, other0, own1, other1 *big.Int) *big.Int {
 // units, so the comparison is made on the claim of the units that exist both before and after
 // (Pm = min(P0,P1) units): their claim afterwards, with dust (a few base units priced at the pool ratio,
 // 1e-16 of the depth) put back on each side, has at least (1 - 1e-9) of the backing it had before:
-//   (R1*Pm/P1 + dR) * (A1*Pm/P1 + dA) >= R0*A0*(Pm/P0)^2 * (1 - 2e-9)
+//
+//	(R1*Pm/P1 + dR) * (A1*Pm/P1 + dA) >= R0*A0*(Pm/P0)^2 * (1 - 2e-9)
 func backingKept(R0, A0, P0, R1, A1, P1 *big.Int) bool {
 	if P0.Sign() <= 0 || P1.Sign() <= 0 {
 		return true
@@ -299,15 +301,16 @@ func calcRemoveBacking(rep *report.Report, r *chain.Rng, cases *[]CalcCase, next
 // ---- round trips on the real application -----------------------------------------------------------
 
 type c04Setup struct {
-	Toks      []string
-	Native    []*big.Int
-	Ext       []*big.Int
-	FeeDef    *big.Int
-	FeeTok    map[string]*big.Int
-	Pmtp      *big.Int
-	ExtraLP   bool
-	ExtraN    *big.Int
-	ExtraX    *big.Int
+	Toks    []string
+	Native  []*big.Int
+	Ext     []*big.Int
+	FeeDef  *big.Int
+	FeeTok  map[string]*big.Int
+	Pmtp    *big.Int
+	ExtraLP bool
+	ExtraN  *big.Int
+	ExtraX  *big.Int
+	Margin  bool // the pools are enabled for margin trading (no positions): the handlers take their margin branches
 }
 
 func genC04Setup(rng *chain.Rng, two bool) c04Setup {
@@ -338,6 +341,7 @@ func genC04Setup(rng *chain.Rng, two bool) c04Setup {
 	}
 	s.ExtraLP = rng.Intn(2) == 0
 	s.ExtraN, s.ExtraX = RandAmount(rng, 30), RandAmount(rng, 30)
+	s.Margin = rng.Intn(3) == 0
 	return s
 }
 
@@ -369,6 +373,9 @@ func (s c04Setup) build(h *History, nextID *int) *env.Env {
 			mustOK(e.Tx(e.Users[0], &m1), "create pool")
 		}
 	}
+	if s.Margin {
+		mustOK(e.Tx(e.Admin, &margintypes.MsgUpdatePools{Signer: e.Admin.Addr.String(), Pools: s.Toks}), "margin pools")
+	}
 	if s.ExtraLP {
 		asset := clptypes.NewAsset(s.Toks[0])
 		m2 := clptypes.NewMsgAddLiquidity(e.Users[1].Addr, asset, env.U(s.ExtraN), env.U(s.ExtraX))
@@ -388,7 +395,7 @@ func (s c04Setup) desc() map[string]interface{} {
 	}
 	return map[string]interface{}{"template": "C04 round trip", "tokens": s.Toks, "native": bigs(s.Native), "external": bigs(s.Ext),
 		"fee_default_1e18": s.FeeDef.String(), "fee_tokens_1e18": ft, "pmtp_1e18": s.Pmtp.String(), "extra_lp": s.ExtraLP,
-		"extra_add": []string{s.ExtraN.String(), s.ExtraX.String()}}
+		"extra_add": []string{s.ExtraN.String(), s.ExtraX.String()}, "pools_enabled_for_margin": s.Margin}
 }
 
 // netDelta returns the change of the account's balance between two states, with the rowan fees of nTx transactions added back.
